@@ -387,6 +387,16 @@ def check_C13(ctx, deep=False):
     ops += nops
     run_and_compare(ctx, ops, [lambda c, r: oracle_gen(c, r, "succ") if r["op"] == "gen cap" else None,
                                lambda c, r: oracle_gen(c, r, "moves") if r["op"].startswith("gennull ") else None, oracle_state])
+    # the capture lists AS THE QUIESCENCE SEARCH CONSUMES THEM (hook H4 logs the list used at every
+    # quiescence node; the model replays the log and demands, entry by entry, a permutation of ITS
+    # capture-only generation for the board at that node, sorted by its ordering value): real searches
+    # deep enough to revisit positions and to enter quiescence from null-move twins (iteration 4; 5 in the thorough tier)
+    sops = props2.search_positions(ctx, 10 if q else 120, 30, "searchd 4", with_rep=False)
+    if not q:
+        sops += C.genops("search", ctx.seed + 9, 24, 30, "gen_all", "searchd_5")
+    sres = C.run_ops(sops)
+    props2.t2_search(ctx, sres)
+    ctx.count("deep_searches_with_capture_list_replay", sum(1 for r in sres if r["op"].startswith("searchd")))
 
 
 def check_C04(ctx, deep=False):
